@@ -38,6 +38,12 @@ def _count(obj, name):
 
 
 class PNode(HasTraits):
+    #: defined before every dependency (copy order follows definition order)
+    trig0 = Int
+
+    def _trig0_changed(self):
+        self.total, self.deep, self.first, self.msum, self.ssum
+
     value = Int
     child = Instance(HasTraits)
     kids = List(Instance(HasTraits))
@@ -187,6 +193,7 @@ def apply(w, ev):
     if k == "set_value":
         w.pool[ev[1]].value += 10
     elif k == "set_trigger":
+        w.pool[ev[1]].trig0 += 1
         w.pool[ev[1]].atrigger += 1
         w.pool[ev[1]].ztrigger += 1
     elif k == "read_all":
